@@ -355,7 +355,7 @@ class ParseTreeMap(Generic[ClassType1, ObjType1, ClassType2, ObjType2]):
         if not rule1.children:
             return ParseTreeMap._min_object(rule2)
 
-        assert isinstance(rule1, Rule) and isinstance(rule2, Rule)
+        assert isinstance(rule1, Rule)
         mapped_obj, idx = rule1.indexed_forward_map(obj)
 
         if rule2.is_equivalence():
@@ -385,6 +385,7 @@ class ParseTreeMap(Generic[ClassType1, ObjType1, ClassType2, ObjType2]):
             order = self.get_order[(rule1.comb_class, rule2.comb_class)]
 
         # Sort rule1's children to match those of rule 2
+        assert isinstance(rule2, Rule)
         _children = self._get_nonempty(rule1, mapped_obj)
         child_it: Iterator[
             Optional[Tuple[ObjType1, AbstractRule[ClassType1, ObjType1]]]
